@@ -15,7 +15,24 @@ K_ = Const('k', Key); X_ = Const('x', Val); ERR_ = Const('err', Val)
 QA = Array('queue_a', IntSort(), Val); HA = Array('has_a', IntSort(), Val); LEN = Int('cells_len')
 
 
+_E2E = {}
+
+
+def _tee_e2e():
+    """a failing real input for tee_map, if the small end-to-end scenarios of the bounded tier (join vs branches run alone, key slots
+    reused by successive windows, nested tee_map) find one"""
+    if 'r' not in _E2E:
+        try:
+            from ..bounded.mux import check_c08
+            _E2E['r'] = (check_c08({}).get('failures') or [None])[0]
+        except Exception as ex:
+            _E2E['r'] = None
+    return _E2E['r']
+
+
 class TeeCase(FnCase):
+    e2e = staticmethod(_tee_e2e)
+
     def __init__(self, n, join, branch, case):
         self.n = n; self.join = join; self.branch = branch; self.case = case
         self.name = f'tee_map[n={n},join={join}]/branch{branch}/{case}'
@@ -141,6 +158,7 @@ class TeeCase(FnCase):
 
 
 class TeeWiring(FnCase):
+    e2e = staticmethod(_tee_e2e)
     """tee_map(*branches, join=...)(source): the source is published exactly once (also when it is itself a connectable, e.g. a tee_map
     nested as first operator of a branch), every branch is applied to that one connectable, the join flags decode the join mode"""
 
